@@ -92,6 +92,7 @@ def run(ctx, args):
                         or e["c"]["vmsg"] != "same" or e["c"]["vkeys"]["op"] != "same" or e["c"]["thr"] != 1})
     ctx.cov["accepted_by_FullVerify"] = sum(1 for e in events if e["fv"])
     ctx.cov["rejected_by_FullVerify"] = sum(1 for e in events if not e["fv"])
+    ctx.cov["reused_value_verifications"] = 4 * len(events)   # fvUsed, fvCopy, fvAgg, fvBack per case
     ctx.cov["wide_vector_cases"] = sum(1 for e in events if e.get("N", 0) >= 63)
     ctx.rule = ("every case of the TLC-enumerated space (1..4 abstract keys, every mask incl. an index outside the "
                 "vector, thresholds 0..n+1, %s deviation(s) among share tampering / response-map domain / final-signature "
